@@ -78,7 +78,7 @@ func equivCheck(c *an.Check, only func(*ssa.Function) bool) {
 		name := an.FuncName(eq)
 		// asserted interface
 		var ta *ssa.TypeAssert
-		for _, b := range eq.Blocks {
+		for _, b := range an.ScanBlocks(eq) {
 			for _, ins := range b.Instrs {
 				if t, ok := ins.(*ssa.TypeAssert); ok && t.X == ssa.Value(eq.Params[1]) {
 					ta = t
@@ -114,7 +114,7 @@ func equivCheck(c *an.Check, only func(*ssa.Function) bool) {
 			if strings.Contains(fn.Pkg.Pkg.Path(), "/examples/") {
 				continue
 			}
-			for _, b := range fn.Blocks {
+			for _, b := range an.ScanBlocks(fn) {
 				for _, ins := range b.Instrs {
 					call, ok := ins.(*ssa.Call)
 					if !ok || !call.Call.IsInvoke() {
@@ -152,7 +152,7 @@ func equivCheck(c *an.Check, only func(*ssa.Function) bool) {
 			}
 			// find od.m() feeding a comparison
 			found := false
-			for _, b := range eq.Blocks {
+			for _, b := range an.ScanBlocks(eq) {
 				for _, ins := range b.Instrs {
 					call, ok := ins.(*ssa.Call)
 					if !ok || !call.Call.IsInvoke() || call.Call.Method.Name() != m || call.Call.Value != od {
@@ -206,7 +206,7 @@ func firstOr(s []string) string {
 
 // feedsComparison: the call's result reaches (through conversions / String() / getters) an ==, != or Equal call.
 func feedsComparison(p *an.Prog, fn *ssa.Function, call *ssa.Call) bool {
-	for _, b := range fn.Blocks {
+	for _, b := range an.ScanBlocks(fn) {
 		for _, ins := range b.Instrs {
 			switch x := ins.(type) {
 			case *ssa.BinOp:
@@ -240,7 +240,7 @@ func checkSameParam(c *an.Check, eq *ssa.Function, od ssa.Value, name string) {
 	p := c.P
 	recv := eq.Params[0]
 	n, bad := 0, ""
-	for _, b := range eq.Blocks {
+	for _, b := range an.ScanBlocks(eq) {
 		for _, ins := range b.Instrs {
 			bo, ok := ins.(*ssa.BinOp)
 			if !ok || (bo.Op != token.EQL && bo.Op != token.NEQ) {
@@ -323,7 +323,7 @@ func ownGetterField(p *an.Prog, eq *ssa.Function, m string) *types.Var {
 		if f == nil {
 			return nil
 		}
-		for _, b := range f.Blocks {
+		for _, b := range an.ScanBlocks(f) {
 			for _, ins := range b.Instrs {
 				if ret, ok := ins.(*ssa.Return); ok && len(ret.Results) == 1 {
 					if u, ok := ret.Results[0].(*ssa.UnOp); ok {
@@ -399,7 +399,7 @@ func onlyProjections(p *an.Prog, fn *ssa.Function, call *ssa.Call) string {
 		})
 		return name
 	}
-	for _, b := range fn.Blocks {
+	for _, b := range an.ScanBlocks(fn) {
 		for _, ins := range b.Instrs {
 			var ops []ssa.Value
 			switch x := ins.(type) {
